@@ -24,6 +24,8 @@ ASSUMPTIONS = ["after_remove is Client.close (never raises; C06) or None", "the 
 NOT_COVERED = ["exits by non-Exception BaseException (C10)", "FIFO order of the free list beyond 'first non-expired object is reused'"]
 BUDGET = {"quick": 30, "thorough": 120}
 REPLAY_UNDECIDED = True
+DEPENDS = ["C01"]      # "a connection on which a call failed is closed": the inner Client's contract (a raising exit after the exchange
+                       # started leaves the socket closed and dropped) is C01's; it is re-proved in this run
 FILTER_BY_PROPERTY = True
 
 
